@@ -217,18 +217,19 @@ def c16_oracle(c):
     if t is None: return fail('thread_tree_shape', args=a)
     pts = t['children'][0]['points']
     zmin = min(p[2] for p in pts)
-    if abs(zmin) > 1e-12: return fail('thread_starts_at_z0', args=a, zmin=zmin)
+    if any(not math.isfinite(x) for p in pts for x in p): return fail('thread_vertices_are_finite', args=a)
+    if not (abs(zmin) <= 1e-12): return fail('thread_starts_at_z0', args=a, zmin=zmin)
     tol = 1e-9 * (1 + d_maj)
     for i, p in enumerate(pts):
         r = math.hypot(p[0], p[1])
-        if r < d_min / 2 - tol or r > d_maj / 2 + tol: return fail('thread_vertices_between_minor_and_major_radius', args=a, vertex=i, radius=r, minor=d_min / 2, major=d_maj / 2)
+        if not (d_min / 2 - tol <= r <= d_maj / 2 + tol): return fail('thread_vertices_between_minor_and_major_radius', args=a, vertex=i, radius=r, minor=d_min / 2, major=d_maj / 2)
     nrings = len(pts) // 4
     step = 360.0 / seg
     for k in range(nrings):
         ang = math.degrees(math.atan2(pts[4 * k][1], pts[4 * k][0]))
         want = (k * step) * (-1 if left else 1)
         dlt = (ang - want + 180) % 360 - 180
-        if abs(dlt) > 1e-6: return fail('thread_turns_with_requested_hand', args=a, ring=k, angle=ang, expected=want % 360)
+        if not (abs(dlt) <= 1e-6): return fail('thread_turns_with_requested_hand', args=a, ring=k, angle=ang, expected=want % 360)
     if nrings > seg + 1:
         dz = pts[4 * (seg + 1) + 2][2] - pts[4 * 1 + 2][2]      # root vertex one revolution apart (rings 1 and seg+1)
         n_steps = int(((length - 0.7 * pitch) / pitch) * seg)
